@@ -366,6 +366,11 @@ def world_rule(model: Model, res, scope: Tuple[str, ...] = (), rule: str = "R-WO
                     continue
                 n += 1
                 body = [st for st in f.node.body if not (isinstance(st, ast.Expr) and isinstance(st.value, ast.Constant))]
+                # an override that only delegates (`super()._record_action(action)`) is the base's sink
+                if len(body) == 1 and isinstance(body[0], (ast.Expr, ast.Return)) and isinstance(body[0].value, ast.Call) \
+                        and ast.unparse(body[0].value.func) in (f"super().{sink}", f"Market.{sink}") \
+                        and [ast.unparse(x) for x in body[0].value.args][-len(f.params[1:]) or None:] == f.params[1:]:
+                    continue
                 if ast.dump(ast.Module(body=body, type_ignores=[])) != want:
                     findings.append(("W8", f.loc(), f.qualname, f"override of the ledger sink {sink}",
                                      f"{c.name} overrides `{sink}`, the sink in which every operation's ledger ends (defined once in Market): "
